@@ -2111,6 +2111,12 @@ func (s *swamp) SaveFunction(t treasure.Treasure, guardID guard.ID) treasure.Tre
 		// treasure may still be sitting in the write buffer. We must remove it first,
 		// otherwise beacon.Add silently drops the new treasure (key already exists)
 		// and only the OpDelete gets flushed — causing data loss after swamp reopen.
+		// The key is then still present in the file, so the re-created record inherits the file
+		// pointer of the dropped delete marker: without it a later delete would take the record for a
+		// never-written one, queue no delete entry, and the old record would come back after a reopen.
+		if pending := s.treasuresWaitingForWriter.Get(t.GetKey()); pending != nil && pending.GetFileName() != nil {
+			t.BodySetFileName(guardID, *pending.GetFileName())
+		}
 		s.treasuresWaitingForWriter.Delete(t.GetKey())
 
 		// add the treasure to the treasuresWaitingForWriter index
